@@ -417,6 +417,7 @@ impl VersionManager {
 
         // For levels that require synchronization, acquire version under lock
         let (version, min_version) = if self.concurrency_level.requires_synchronization() {
+            verif_point!("vs.r.lock", self as *const Self);
             let _lock = self.token_chain_mutex.lock().map_err(|_| {
                 ZiporaError::system_error("Failed to acquire token chain mutex for reader")
             })?;
@@ -489,6 +490,7 @@ impl VersionManager {
 
         // Acquire version under lock for synchronized levels
         let (version, min_version) = if self.concurrency_level.requires_synchronization() {
+            verif_point!("vs.w.lock", self as *const Self);
             let _lock = self.token_chain_mutex.lock().map_err(|_| {
                 if claimed {
                     self.active_writers.fetch_sub(1, Ordering::Relaxed);
@@ -572,6 +574,7 @@ impl VersionManager {
         verif_point!("vs.adv.check", self as *const Self);
         // Serialise with version assignment: tokens are counted under this mutex, so when both
         // counters read zero here no token with a version below current_version can exist
+        verif_point!("vs.adv.lock", self as *const Self);
         let _lock = match self.token_chain_mutex.lock() {
             Ok(lock) => lock,
             Err(_) => return,
